@@ -15,12 +15,13 @@ import (
 
 // ExecSpec is one Execute call of a session history.
 type ExecSpec struct {
-	RunID   string
-	StepID  string
-	Input   any
-	Signals []schema.Input // sent through signalsToStep, then the channel is closed
-	Emitted bool           // pass a signalsFromStep channel and drain it
-	NoSigCh bool           // pass nil for signalsToStep even without signals
+	RunID     string
+	StepID    string
+	Input     any
+	Signals   []schema.Input // sent through signalsToStep, then the channel is closed
+	Emitted   bool           // pass a signalsFromStep channel and drain it
+	NoSigCh   bool           // pass nil for signalsToStep even without signals
+	HoldSigCh bool           // pass a signalsToStep channel that the caller never closes (closing is only recommended)
 }
 
 // SessionSpec is a history: groups run one after the other, the Execute calls
